@@ -220,6 +220,106 @@ theorem changeFull_laws (orc : Oracle) (st : St) (now age : Rat) :
   have h1 := change_returns_eligible _ now age e he
   exact ⟨h1.1, h1.2, fun e' he' hel => (change_minimal _ now age e he e' he' hel).1⟩
 
+/-! ## folders -/
+
+/-- a write to fields of side `s` other than its stamp and id -/
+theorem pres_sideField (s : Bool) (g : Side → Side) (hc : ∀ x, (g x).changed = x.changed) (ho : ∀ x, (g x).oid = x.oid) :
+    Pres (fun e : Entry => (e.setSide s (g (e.side s)), ([] : Acts))) :=
+  pres_fields _ (fun e => by simp) (fun e t => setSide_keep e s _ (hc _) (ho _) t)
+
+theorem kidStep_inv (recur : St → Nat → String → St) (oipS : Bool) (skip : List Nat) (s : Bool) (pp path : String)
+    (acc : St) (sub0 : Entry) (hrec : ∀ a i p, Inv a → Inv (recur a i p)) (h : Inv acc) :
+    Inv (kidStep recur oipS skip s pp path acc sub0) := by
+  unfold kidStep
+  split
+  · exact h
+  · cases hg : acc.get? sub0.id with
+    | none => exact h
+    | some sub =>
+      simp only
+      split
+      · exact h
+      · have h1 : ∀ np : String, Inv (if oipS = true then acc.withE sub.id (fun e => setOidA e s np) else acc) := by
+          intro np; split
+          · exact withE_inv acc sub.id _ (pres_setOidA s np) h
+          · exact h
+        split
+        · rename_i srel _
+          exact withE_inv _ sub.id _ (pres_sideField s (fun x => { x with syncPath := some (joinRel path srel) })
+            (fun _ => rfl) (fun _ => rfl)) (hrec _ _ _ (h1 _))
+        · exact hrec _ _ _ (h1 _)
+
+theorem foldl_inv {α : Type} (g : St → α → St) (l : List α) (st : St) (hg : ∀ a x, Inv a → Inv (g a x)) (h : Inv st) :
+    Inv (l.foldl g st) := by
+  induction l generalizing st with
+  | nil => exact h
+  | cons x l ih => simp only [List.foldl_cons]; exact ih _ (hg _ _ h)
+
+/-- a path change, with all the descendants it carries along, keeps the changeset invariant -/
+theorem changePath_inv (cls : Cls) (oip : Bool × Bool) (fuel : Nat) :
+    ∀ (moving : List Nat) (st : St) (id : Nat) (s : Bool) (path : String), Inv st →
+      Inv (changePath cls oip fuel moving st id s path) := by
+  induction fuel with
+  | zero => intro moving st id s path h; exact inv_unmodelled st true h
+  | succ fuel ih =>
+    intro moving st id s path h
+    simp only [changePath]
+    cases hg : st.get? id with
+    | none => exact h
+    | some e =>
+      simp only
+      split
+      · exact h
+      · have h1 : Inv (st.withE id (fun e => (e.setSide s { e.side s with path := some path }, ([] : Acts)))) :=
+          withE_inv st id _ (pres_sideField s (fun x => { x with path := some path }) (fun _ => rfl) (fun _ => rfl)) h
+        split
+        · exact h1
+        · apply withE_inv _ id _ (pres_setPriorityA _ _)
+          split
+          · split
+            · apply foldl_inv _ _ _ _ h1
+              intro a x ha
+              exact kidStep_inv _ _ _ _ _ _ _ _ (fun a' i p ha' => ih (id :: moving) a' i s p ha') ha
+            · exact h1
+          · exact h1
+
+theorem opUpdateDir_inv (cls : Cls) (oip : Bool × Bool) (st : St) (s : Bool) (oid : String) (prior : Option String)
+    (path : String) (now : Rat) (h : Inv st) : Inv (opUpdateDir cls oip st s oid prior path now).1 := by
+  have step : ∀ (st0 : St) (id : Nat), Inv st0 →
+      Inv ((changePath cls oip ((st0.withE id (fun e => setOidA (e.setSide s { e.side s with dir := true }) s oid)).ents.length + 1) []
+            (st0.withE id (fun e => setOidA (e.setSide s { e.side s with dir := true }) s oid)) id s path).withE id (fun e =>
+          if now != 0 then markA st.last now (e.setSide s { e.side s with
+              ex := if (e.side s).ex == .trashed || (e.side s).ex == .likelyTrashed then .likelyTrashed else .exists }) s
+          else (e.setSide s { e.side s with
+              ex := if (e.side s).ex == .trashed || (e.side s).ex == .likelyTrashed then .likelyTrashed else .exists }, []))) := by
+    intro st0 id h0
+    have hdir : Pres (fun e : Entry => (e.setSide s { e.side s with dir := true }, ([] : Acts))) :=
+      pres_sideField s (fun x => { x with dir := true }) (fun _ => rfl) (fun _ => rfl)
+    have hex : Pres (fun e : Entry => (e.setSide s { e.side s with
+        ex := if (e.side s).ex == .trashed || (e.side s).ex == .likelyTrashed then Ex.likelyTrashed else Ex.exists }, ([] : Acts))) :=
+      pres_sideField s (fun x => { x with
+        ex := if x.ex == .trashed || x.ex == .likelyTrashed then Ex.likelyTrashed else Ex.exists }) (fun _ => rfl) (fun _ => rfl)
+    apply withE_inv
+    · intro e
+      by_cases hn : (now != 0) = true
+      · simp only [hn, if_true]
+        have := pres_seq hex (pres_markA st.last now s) e
+        simpa [seqA] using this
+      · simp only [hn, Bool.false_eq_true, if_false]
+        exact hex e
+    · apply changePath_inv
+      apply withE_inv st0 id _ _ h0
+      intro e
+      have := pres_seq hdir (pres_setOidA s oid) e
+      simpa [seqA] using this
+  cases hf : dirTarget st s oid prior with
+  | some e0 =>
+    simp only [opUpdateDir, hf]
+    exact inv_last _ _ (step _ _ h)
+  | none =>
+    simp only [opUpdateDir, hf]
+    exact inv_last _ _ (step _ _ (inv_append_gen st _ rfl (einv_fresh_dir _) h))
+
 /-! ## every reachable state -/
 
 theorem applyOp_inv (dn : String → String) (st : St) (op : Op) (h : Inv st) : Inv (applyOp dn st op) := by
@@ -234,6 +334,7 @@ theorem applyOp_inv (dn : String → String) (st : St) (op : Op) (h : Inv st) : 
   | syncpath s id p => exact opSyncPath_inv st s id p h
   | finished id => exact opFinished_inv dn st id h
   | fill orc now => exact fillIn_inv orc now st h
+  | updateDir cls oip s oid prior path now => exact opUpdateDir_inv cls oip st s oid prior path now h
 
 theorem inv_init (p : Rat × Rat) (last : Rat) : Inv { punt := p, last := last } :=
   ⟨fun _ h => absurd h (by simp), fun _ h => absurd h (by simp), fun _ _ h => by simp [St.get?] at h⟩
